@@ -3,6 +3,7 @@ import ZkModel.Hashers
 import ZkModel.Codec
 import ZkModel.TreeDriver
 import ZkModel.Graph.Ops
+import ZkModel.ProtoDriver
 /-!
 # Line-protocol driver: `zkmodel (model|spec) < ops` prints one canonical line per op.
 
@@ -114,9 +115,143 @@ def treeStep (st : St) (w : List String) : St × String :=
     ({ st with inst := some inst' }, r)
   | none => (st, "bad-op")
 
+/-- current RLN tree as (root, proof function, leaves_set, empty list) -/
+def rlnView (st : St) : Option (Nat × (Nat → Outcome (List (Nat × Nat))) × Nat × List Nat) :=
+  match st.inst with
+  | some ti =>
+    let H := st.env.H2
+    match ti.inst with
+    | .pm t => some (t.root, fun i => t.proof i, t.next, t.emptyIdx)
+    | .full t => some (t.root, fun i => t.proof i, t.next, t.emptyIdx)
+    | .opt t => some (t.root, fun i => t.proof i, t.next, t.emptyIdx)
+    | .ideal t _ => some (t.nodeFast H 0 0 0,
+        fun i => if i < t.cap then .ok (t.proofFast H 0 i) else .err, t.next, t.emptyIdx)
+  | none => none
+
+def protoEnv (e : Env) : ProtoDriver.PEnv :=
+  { H := fun l => match e.poseidon l with | .ok v => v | _ => 0, h2f := e.h2f, spec := e.mode == .spec }
+
+open ProtoDriver Protocol Public in
+/-- the RLN object: tree calls are forwarded to the tree instance, proving / verification go
+    through `Public` (model) or the specification predicates (spec) -/
+def rlnStep (st : St) (w : List String) : St × String :=
+  let pe := protoEnv st.env
+  let spec := pe.spec
+  let fwd (ws : List String) : St × String := treeStep st ws
+  match w with
+  | ["new"] =>
+    match TreeDriver.newInst { H := st.env.H2, spec := spec } "pm" 20 with
+    | some inst => ({ st with inst := some { inst := inst } }, "ok")
+    | none => (st, "bad-op")
+  | ["set_leaf", i, v] => fwd ["set", i, v]
+  | ["set_next", v] => fwd ["app", v]
+  | ["delete", i] => fwd ["del", i]
+  | ["root"] => fwd ["root"]
+  | ["get_leaf", i] => fwd ["get", i]
+  | ["leaves_set"] => fwd ["next"]
+  | ["set_leaves_from", i, vs] => fwd ["batch", i, vs, "-"]
+  | ["init_leaves", vs] =>
+    match TreeDriver.newInst { H := st.env.H2, spec := spec } "pm" 20 with
+    | some inst => treeStep { st with inst := some { inst := inst } } ["batch", "0x0", vs, "-"]
+    | none => (st, "bad-op")
+  | ["atomic", i, vs, idx] => fwd ["batch", i, vs, idx]
+  | ["empty"] => match rlnView st with
+    | some (_, _, _, em) => (st, "ok " ++ showBytes (Codec.serializeVecUsize em))
+    | none => (st, "bad-op")
+  | ["get_proof", i] => match rlnView st, parseHexNat i with
+    | some (_, pf, _, _), some i =>
+      (st, match pf i with
+        | .ok p => "ok " ++ showBytes (Codec.vecFrToBytesLe (p.map (·.1)) ++ Codec.vecU8ToBytesLe (p.map (fun x => x.2.toUInt8)))
+        | .err => "err" | .panic => "panic")
+    | _, _ => (st, "bad-op")
+  | [op, b] =>
+    match parseHexBytes b, rlnView st with
+    | some bs, some (root, pf, _, _) =>
+      let Z := unitSnark true true
+      let Pv : Prover Unit := { prove := fun _ => some () }
+      if op == "prove_req" then
+        if spec then
+          -- request layout [ secret | id_index<8> | limit | message_id | external_nullifier | signal_len<8> | signal ]
+          if bs.length < 144 then (st, "err") else
+          let slen := leNat ((bs.drop 136).take 8)
+          if bs.length < 144 + slen then (st, "err") else
+          match pf (leNat ((bs.drop 32).take 8)) with
+          | .ok p =>
+            let wi : Witness := { identitySecret := Spec.decFr bs 0, userMessageLimit := Spec.decFr bs 40, messageId := Spec.decFr bs 72,
+                                  pathElements := p.map (·.1), identityPathIndex := p.map (fun x => x.2.toUInt8),
+                                  x := pe.h2f ((bs.drop 144).take slen), externalNullifier := Spec.decFr bs 104 }
+            (st, if decide (CircuitSat 20 wi) then "ok " ++ showBytes (Spec.encPv (specProofValues pe.H wi)) else "err")
+          | _ => (st, "err")
+        else (st, out (generateRlnProof Z Pv pe.H pe.h2f 20 pf bs) (fun m => "ok " ++ showBytes m))
+      else if op == "prove_wit" || op == "prove_raw" then
+        if spec then
+          match Spec.decWitness bs with
+          | some wi => (st, if decide (CircuitSat 20 wi) then
+              (if op == "prove_wit" then "ok " ++ showBytes (Spec.encPv (specProofValues pe.H wi)) else "ok -") else "err")
+          | none => (st, "err")
+        else if op == "prove_wit" then (st, out (generateRlnProofWithWitness Z Pv pe.H 20 bs) (fun m => "ok " ++ showBytes m))
+        else (st, out (Public.prove Z Pv 20 bs) (fun m => "ok " ++ showBytes m))
+      else if op == "witness_req" then
+        if spec then
+          if bs.length < 144 then (st, "err") else
+          let slen := leNat ((bs.drop 136).take 8)
+          if bs.length < 144 + slen then (st, "err") else
+          match pf (leNat ((bs.drop 32).take 8)) with
+          | .ok p =>
+            let wi : Witness := { identitySecret := Spec.decFr bs 0, userMessageLimit := Spec.decFr bs 40, messageId := Spec.decFr bs 72,
+                                  pathElements := p.map (·.1), identityPathIndex := p.map (fun x => x.2.toUInt8),
+                                  x := pe.h2f ((bs.drop 144).take slen), externalNullifier := Spec.decFr bs 104 }
+            (st, if wi.messageId < wi.userMessageLimit then "ok " ++ showBytes (Spec.encWitness wi) else "err")
+          | _ => (st, "err")
+        else
+          (st, match proofInputsToWitness pe.h2f pf bs with
+            | .ok (wi, _) => out (serializeWitness wi) (fun m => "ok " ++ showBytes m)
+            | .err => "err" | .panic => "panic")
+      else (st, "bad-op")
+    | _, _ => (st, "bad-op")
+  | ["verify", b, dec, snark] =>
+    match parseHexBytes b with
+    | some bs =>
+      if spec then
+        (st, if decide (bs.length = 288) && (List.range 5).all (fun j => Spec.canonicalAt bs (128 + 32 * j)) && bool01 dec && bool01 snark
+             then "accept" else "reject")
+      else (st, verdict (Public.verify (unitSnark (bool01 dec) (bool01 snark)) bs))
+    | none => (st, "bad-op")
+  | ["verify_rln", b, dec, snark] =>
+    match parseHexBytes b, rlnView st with
+    | some bs, some (root, _, _, _) =>
+      if spec then (st, if Spec.acceptRln pe.h2f (some root) none bs (bool01 dec) (bool01 snark) then "accept" else "reject")
+      else (st, verdict (verifyRlnProof (unitSnark (bool01 dec) (bool01 snark)) pe.h2f root bs))
+    | _, _ => (st, "bad-op")
+  | ["verify_roots", b, rb, dec, snark] =>
+    match parseHexBytes b, parseHexBytes rb with
+    | some bs, some rbs =>
+      if spec then
+        -- roots buffer: a whole number of 32-byte field elements; empty = no root check
+        (st, if rbs.length % 32 ≠ 0 then "reject"
+             else if Spec.acceptRln pe.h2f none (some ((Spec.chunks 32 (rbs.length / 32) rbs).map (fun c => leNat c % P))) bs (bool01 dec) (bool01 snark)
+             then "accept" else "reject")
+      else (st, verdict (verifyWithRoots (unitSnark (bool01 dec) (bool01 snark)) pe.h2f bs rbs))
+    | _, _ => (st, "bad-op")
+  | ["recover", a, b] =>
+    match parseHexBytes a, parseHexBytes b with
+    | some a, some b =>
+      if spec then
+        if a.length < 288 || b.length < 288 then (st, "err") else
+        let (e1, x1, y1) := (Spec.decFr a 160, Spec.decFr a 192, Spec.decFr a 224)
+        let (e2, x2, y2) := (Spec.decFr b 160, Spec.decFr b 192, Spec.decFr b 224)
+        if e1 ≠ e2 then (st, "ok -") else
+        if x1 = x2 then (st, "err") else
+        let a1 := fmul (fsub y1 y2) (finv (fsub x1 x2))
+        (st, "ok " ++ showBytes (natLE 32 (fsub y1 (fmul x1 a1))))
+      else (st, out (recoverIdSecret a b) (fun m => "ok " ++ showBytes m))
+    | _, _ => (st, "bad-op")
+  | _ => (st, "bad-op")
+
 def step (st : St) (line : String) : St × String :=
   let e := st.env
   match line.trimAscii.toString.splitOn " " with
+  | "rln" :: rest => rlnStep st rest
   | "poseidon" :: args =>
     match parseNats args with
     | some inp => (st, showOutcome ((e.poseidon inp).map fr))
@@ -174,7 +309,9 @@ def step (st : St) (line : String) : St × String :=
     | _, _, _, _, _ => (st, "bad-op")
   | [op, bs] =>
     match (if isHashOp op then parseHexBytes bs else none) with
-    | none => treeStep st [op, bs]
+    | none => match ProtoDriver.stepPure (protoEnv e) [op, bs] with
+      | some r => (st, r)
+      | none => treeStep st [op, bs]
     | some b =>
       if op == "pub_poseidon" || op == "ffi_poseidon" then (st, showOk ((pubPoseidon e b).map showBytes))
       else if op == "h2f" then (st, fr (e.h2f b))
@@ -188,7 +325,9 @@ def step (st : St) (line : String) : St × String :=
       | some inst => ({ st with inst := some { inst := inst } }, "ok")
       | none => (st, "bad-op")
     | none => (st, "bad-op")
-  | w => treeStep st w
+  | w => match ProtoDriver.stepPure (protoEnv e) w with
+    | some r => (st, r)
+    | none => treeStep st w
 
 partial def loop (h : IO.FS.Stream) (out : IO.FS.Stream) (st : St) : IO Unit := do
   let line ← h.getLine
